@@ -429,7 +429,11 @@ bool World::exec_drift_op(const Step& s)
                     target = I->name;
                     // replace the indexed column list by another column of the same table
                     auto tcols = columns(d, I->tbl);
-                    auto open = I->sql.rfind('(');
+                    // the indexed terms are the outermost parenthesis after "ON <table>" (a term may itself be an expression)
+                    auto on = I->sql.find(" ON ");
+                    if (on == std::string::npos)
+                        on = I->sql.find(" on ");
+                    auto open = on == std::string::npos ? std::string::npos : I->sql.find('(', on);
                     auto close = I->sql.rfind(')');
                     if (tcols.empty() || open == std::string::npos || close == std::string::npos || close < open)
                         break;
